@@ -374,6 +374,34 @@ Section Signer.
       Some (map (fun '(a, idx) => honest_one a (compute_signing_root H (htr_att_data H (att_with_index shared idx)) domain))
                 (combine accs idxs))
   |}.
+
+  (* The same accounts behind a remote signer with TRANSIENT failures, decided call by call by the
+     signer and not by the kind of account: a multi-signature call has no signature for a member
+     that could sign alone ([bf]: threshold not reached for it in this round; a nil entry), a
+     multi-signature call fails as a whole on the account it is made on ([be]), a single-signature
+     call fails for an account that a multi-signature call signs for ([sf]).  Whatever IS signed is
+     signed as documented.  [honest] is the case where the three predicates are false everywhere. *)
+  Variables bf be sf : account -> bool.
+
+  Definition flaky_single (a : account) (signing_root : N) : option sig :=
+    if a_fail a || sf a then None else Some (sign (a_key a) signing_root).
+
+  Definition flaky_member (a : account) (signing_root : N) : option sig :=
+    if a_fail a || bf a then None else Some (sign (a_key a) signing_root).
+
+  Definition honest_flaky : env := {|
+    e_sign := fun a data => flaky_single a data;
+    e_generic := fun a root domain => flaky_single a (compute_signing_root H root domain);
+    e_att := fun a d domain => flaky_single a (compute_signing_root H (htr_att_data H d) domain);
+    e_prop := fun a h domain => flaky_single a (compute_signing_root H (htr_block_header H h) domain);
+    e_multi_generic := fun a0 accs roots domain =>
+      if be a0 then None
+      else Some (map (fun '(a, root) => flaky_member a (compute_signing_root H root domain)) (combine accs roots));
+    e_multi_att := fun a0 accs idxs shared domain =>
+      if be a0 then None
+      else Some (map (fun '(a, idx) => flaky_member a (compute_signing_root H (htr_att_data H (att_with_index shared idx)) domain))
+                     (combine accs idxs))
+  |}.
 End Signer.
 
 Arguments Env {sig}.
@@ -409,6 +437,25 @@ Section Session.
     | pq :: r => let (out, Sv') := handle Sv pq in out :: run_session Sv' r
     end.
 End Session.
+
+(* The same with the accounts' signers as they behave during each request: a remote signer may
+   have no signature for a member of one batch and sign for it in the next request (transient
+   failures), so every request of the session also comes with the environment of account methods
+   as it answers during that request.  The service itself is still returned as it was found. *)
+Section SessionEnv.
+  Variable H : N -> N -> N.
+  Variable sig : Type.
+  Variable zero_sig : sig.
+
+  Definition handle_env (Sv : service) (peq : provider * env sig * request) : res (list sig) * service :=
+    (run H sig zero_sig (fst (fst peq)) (snd (fst peq)) Sv (snd peq), Sv).
+
+  Fixpoint run_session_env (Sv : service) (qs : list (provider * env sig * request)) : list (res (list sig)) :=
+    match qs with
+    | [] => []
+    | peq :: r => let (out, Sv') := handle_env Sv peq in out :: run_session_env Sv' r
+    end.
+End SessionEnv.
 
 (* ------------------------------------------------------------------------------------------ *)
 (* The specification side: the duty messages, and what the consensus / builder specs sign.      *)
